@@ -144,8 +144,8 @@ struct Fixture {
         }
         return p;
     }
-    void thread_begin( int ) { cds::threading::Manager::attachThread(); }
-    void thread_end( int ) { cds::threading::Manager::detachThread(); }
+    void thread_begin( int ) { set_quiet( true ); cds::threading::Manager::attachThread(); set_quiet( false ); }
+    void thread_end( int ) { set_quiet( true ); cds::threading::Manager::detachThread(); set_quiet( false ); }
     std::vector<long> exec( int, Op const& op )
     {
         if ( op.name == "push" )
